@@ -304,6 +304,9 @@ OWNER_WITNESSES = [
     ("scoped closure parameter swapped with a local Bump (lifetime shortened by BumpAllocator::as_mut_scope)",
      "let mut outer: Bump = Bump::new();\nouter.scoped(|scope| {\n    let mut inner: Bump = Bump::new();\n    core::mem::swap(BumpAllocator::as_mut_scope(scope), inner.as_mut_scope());\n});\ntouch(&outer);",
      "let mut outer: Bump = Bump::new();\nouter.scoped(|scope| {\n    let mut inner: Bump = Bump::new();\n    touch(BumpAllocator::as_mut_scope(scope)); touch(inner.as_mut_scope());\n});\ntouch(&outer);"),
+    ("claimants of two claim guards swapped: each original handle resumes in the other arena",
+     "let mut b1: Bump = Bump::new();\nlet mut b2: Bump = Bump::new();\nb1.scoped(|s1| {\n    b2.scoped(|s2| {\n        let mut g1 = s1.claim();\n        let mut g2 = s2.claim();\n        core::mem::swap(&mut *g1, &mut *g2);\n    });\n    let y = s1.alloc_str(\"y\");\n    b2.reset();\n    touch(&y);\n});",
+     "let mut b1: Bump = Bump::new();\nlet mut b2: Bump = Bump::new();\nb1.scoped(|s1| {\n    b2.scoped(|s2| {\n        let mut g1 = s1.claim();\n        let mut g2 = s2.claim();\n        touch(&mut *g1); touch(&mut *g2);\n    });\n    let y = s1.alloc_str(\"y\");\n    b2.reset();\n    touch(&y);\n});"),
 ]
 
 # ---------------------------------------------------------------------------------------------------------------
